@@ -40,11 +40,64 @@ def is_err_ctor(n):
     return n.get("k") == "call" and n.get("ctor", "").endswith("Result::Err")
 
 
+def _split_guarded_ok(root):
+    """`match W { Ok(n) if G => A, Ok(m) => B, Err(e) => C }` as a statement, C leaving the function  ->
+    `let n = match W { Ok(n) => n, Err(e) => C }; if G { A } else { let m = n; B }` — the form the short-write rules read."""
+    import copy
+    import norm
+
+    def fn(n):
+        if n.get("k") != "block":
+            return n
+        out, changed = [], False
+        tail_unit = "expr" in n and isinstance(n["expr"], dict) and str(hir.simp(n["expr"]).get("ty", "")) == "()"
+        for st in list(n.get("stmts", [])) + ([n["expr"]] if tail_unit else []):
+            m = hir.simp(st) if isinstance(st, dict) else st
+            if isinstance(m, dict) and m.get("k") == "match" and m.get("src") not in ("TryDesugar", "ForLoopDesugar") and len(m.get("arms", [])) == 3:
+                a0, a1, a2 = m["arms"]
+
+                def ok_bind(a):
+                    p_ = a["pat"]
+                    subs = p_.get("pats") if p_.get("k") == "pts" else [f_["p"] for f_ in p_.get("fields", [])] if p_.get("k") == "pstruct" else []
+                    if hir.last_seg(hir.pat_path(p_) or "") == "Ok" and len(subs) == 1 and subs[0].get("k") == "pbind":
+                        return subs[0]
+                    return None
+                b0, b1 = ok_bind(a0), ok_bind(a1)
+                if b0 is not None and b1 is not None and "guard" in a0 and "guard" not in a1 and "guard" not in a2 \
+                        and hir.last_seg(hir.pat_path(a2["pat"]) or "") == "Err" and hir.diverges(a2["body"]):
+                    ln = m.get("ln")
+                    val = {"k": "local", "name": b0["name"], "id": b0.get("id"), "ln": ln, "ty": b0.get("ty")}
+                    inner = dict(m, arms=[dict(a0, body=val, **{}), a2], ty=b0.get("ty"))
+                    inner["arms"][0] = {k_: v for k_, v in inner["arms"][0].items() if k_ != "guard"}
+                    out.append({"k": "let", "pat": copy.deepcopy(b0), "init": inner, "ln": ln, "norm": "guarded-ok"})
+                    rebind = {"k": "let", "pat": copy.deepcopy(b1), "init": copy.deepcopy(val), "ln": ln, "norm": "guarded-ok"}
+                    body1 = a1["body"]
+                    if isinstance(body1, dict) and body1.get("k") == "block" and not body1.get("label"):
+                        else_ = dict(body1, stmts=[rebind] + list(body1.get("stmts", [])))
+                    else:
+                        else_ = {"k": "block", "stmts": [rebind], "expr": body1, "ty": m.get("ty"), "ln": ln}
+                    out.append({"k": "if", "c": a0["guard"], "t": a0["body"], "e": else_, "ln": ln, "ty": m.get("ty"), "norm": "guarded-ok"})
+                    changed = True
+                    continue
+            out.append(st)
+        if not changed:
+            return n
+        res = dict(n, stmts=out)
+        if tail_unit:
+            res.pop("expr", None)
+        return res
+    return norm.map_tree(root, fn)
+
+
 def load_fn(facts, name):
     """The body of strip::write / write_all, without a leading empty-input guard `if buf.is_empty() { return Ok(0) | Ok(()) }`: with
     no input the scan yields nothing and the function's own tail returns Ok(buf.len()) = Ok(0) / Ok(()), so the guard decides
     nothing (its exact form is required; anything else stays in place for the rules to judge)."""
     b = facts.body(CRATE, M + name)
+    h2 = _split_guarded_ok(b["hir"])
+    if h2 is not b["hir"]:
+        import norm
+        b = dict(b, hir=norm.alias(h2, b.get("params", [])))
     h = hir.simp(b["hir"])
     if not (isinstance(h, dict) and h.get("k") == "block" and h.get("stmts")):
         return b
